@@ -112,12 +112,14 @@ Fixpoint explain (fuel : nat) (c : cfg) (ticks : bool) (s : st) (now : Z) (evs :
 Inductive jev :=
 | JMsg (id : N) (body : bytes) (t : Z)
 | JHup
+| JTouch (k : key) (b : bytes)            (* another process creates an output-dir file *)
 | JTerm.                                  (* close(termChan), then the consumer's StopChan closes *)
 
 Definition jev_events (e : jev) : list event :=
   match e with
   | JMsg id body t => [Msg (id, body) t false]     (* no connections in-process: IsStarved() = false *)
   | JHup => [Hup]
+  | JTouch k b => [External k b]
   | JTerm => [Term; Stopped]
   end.
 
